@@ -73,6 +73,12 @@ CLAIMED["C13"] = ("4/C13", "Sequential histories: the generic year-start cache a
                   "as a labelled premise.",
                   "the schedule dimension (interleavings of up to 16 threads) is OUTSIDE the claim: this technique family has no thread model for Python; "
                   "only the lock discipline on sequential paths is observed")
+CLAIMED["C12"] = ("4/C12", "LocalDate ordering (all operators, compare_to, min/max, ==) against the day-number order on real calendars (full range or "
+                  "seeded windows), Hebrew month order in both numberings, LocalDateTime/YearMonth/AnnualDate ordering, cross-calendar ordering raises, "
+                  "unrelated types refused, OffsetDate/Time/DateTime and Period equality component-wise; hash consistency as normal-form equality "
+                  "(solver) plus a source-level premise that __hash__ reads only fields __eq__ compares. Duration/Instant/Offset/LocalTime orderings "
+                  "are lemmas of C03/C10, _YearMonthDay ordering and packing of C01; operand immutability is asserted inside the C03/C09/C10/C11 harnesses.",
+                  "symbolic hashing is not executed (hash() realises); Interval/DateInterval equality is in C18")
 NOT_BUILT = {}
 
 NA_REASON = "check not built yet in this round (design in DESIGN.md section 4); no claim is made"
